@@ -390,7 +390,7 @@ func families() []string {
 }
 
 func run(c *core.Ctx) {
-	c.Rule = "for EVERY schema generated in open, hybrid and opaque form (top-level messages of test3, testeditions, testrequired, lazy, textpbeditions, messageset extension payloads: about 55 families) and EVERY message of <=k slots over the thin slot alphabet (k=2 for alphabets of <=400 slots, else k=1 in the quick tier; thorough k=2 throughout; scalar set, list append, map put, nested message set/append/map value incl. a nested slot, oneof members, stored-but-empty composites): the content is written (1) into the open type through its exported struct fields and oneof wrapper structs, (2) into the hybrid type through struct fields, (3) into the hybrid type through its Set methods, (4) into the opaque type through its Set methods (Get + append / insert + Set for lists and maps), all by Go reflection on the generated types, and (5) into dynamicpb through protoreflect. All five must give identical deterministic wire bytes, Size, CheckInitialized verdict, protojson and prototext output; every generated scalar getter and Has method must agree with reflection; every flavour must decode the reference bytes to a message that re-encodes to the same bytes, and must decode the concatenation of the encodings of the two single slots (a merge on the wire) to the same content as dynamicpb. Builders (M_builder) are not reachable by reflection and are exercised only where the harness uses them statically (C18)"
+	c.Rule = "for EVERY schema generated in open, hybrid and opaque form (top-level messages of test3, testeditions, testrequired, lazy, textpbeditions, messageset extension payloads: about 55 families) and EVERY message of <=k slots over the thin slot alphabet (k=2 for alphabets of <=400 slots, else k=1 in the quick tier; thorough k=2 throughout; scalar set, list append, map put, nested message set/append/map value incl. a nested slot, oneof members, stored-but-empty composites): the content is written (1) into the open type through its exported struct fields and oneof wrapper structs, (2) into the hybrid type through struct fields, (3) into the hybrid type through its Set methods, (4) into the opaque type through its Set methods (Get + append / insert + Set for lists and maps), all by Go reflection on the generated types, and (5) into dynamicpb through protoreflect. All five must give identical deterministic wire bytes, Size, CheckInitialized verdict, protojson and prototext output; every generated scalar getter and Has method must agree with reflection; every flavour must decode the reference bytes to a message that re-encodes to the same bytes, and must decode the concatenation of the encodings of the two single slots (a merge on the wire) to the same content as dynamicpb; and for every ordered pair of slots on the same field number, decoding the first (default lazy decoding) and then proto.Merge-ing the second (built through the API, or itself freshly decoded) must give the content dynamicpb gives for the same program, as must proto.Clone of a freshly decoded message. Builders (M_builder) are not reachable by reflection and are exercised only where the harness uses them statically (C18)"
 	c.Exhaustive = true
 	var planOut []map[string]any
 	for _, base := range families() {
@@ -473,7 +473,69 @@ func run(c *core.Ctx) {
 			})
 		})
 		c.DistinctN(int64(n))
-		planOut = append(planOut, map[string]any{"family": base, "slot_alphabet": len(alpha), "k": k, "messages": n})
+		// the same program in every flavour: decode one encoding, then proto.Merge /
+		// proto.Clone. Pairs are forced to collide on one field number so that
+		// message fields (lazy ones included) are merged, not just set.
+		var pairs [][2]*univ.Slot
+		for _, a := range alpha {
+			for _, b := range alpha {
+				if a.Num == b.Num {
+					pairs = append(pairs, [2]*univ.Slot{a, b})
+				}
+			}
+		}
+		c.Par(len(pairs), func(i int) {
+			a, b := pairs[i][0], pairs[i][1]
+			name := univ.Names([]*univ.Slot{a, b})
+			c.Eval(1)
+			c.Guard(func() string { return fmt.Sprintf("merge family=%s case=%s", base, name) }, func() {
+				mo := proto.MarshalOptions{Deterministic: true, AllowPartial: true}
+				ba, _ := mo.Marshal(dyn.Build([]*univ.Slot{a}).Interface())
+				bb, _ := mo.Marshal(dyn.Build([]*univ.Slot{b}).Interface())
+				dd, err := dyn.Unmarshal(ba, proto.UnmarshalOptions{AllowPartial: true})
+				if err != nil {
+					return
+				}
+				proto.Merge(dd.Interface(), dyn.Build([]*univ.Slot{b}).Interface())
+				want := observe(dd)
+				for _, f := range fl {
+					for _, srcDecoded := range []bool{false, true} {
+						if srcDecoded && f.api.name() == "struct fields" && f.label != "open/struct-fields" {
+							continue
+						}
+						dst := f.mt.New()
+						if err := (proto.UnmarshalOptions{AllowPartial: true}).Unmarshal(ba, dst.Interface()); err != nil {
+							c.Violation(fmt.Sprintf("%s rejects the bytes of dynamicpb: family=%s case=%s", f.label, base, name), err.Error())
+							continue
+						}
+						var src proto.Message
+						if srcDecoded {
+							src = f.mt.New().Interface()
+							if err := (proto.UnmarshalOptions{AllowPartial: true}).Unmarshal(bb, src); err != nil {
+								continue
+							}
+						} else {
+							v := reflect.ValueOf(f.mt.New().Interface())
+							f.api.apply(v, f.mt.Descriptor(), b)
+							src = v.Interface().(proto.Message)
+						}
+						proto.Merge(dst.Interface(), src)
+						if got := observe(dst); got != want {
+							c.Violation(fmt.Sprintf("decode-then-Merge differs from dynamicpb: %s srcDecoded=%v family=%s case=%s", f.label, srcDecoded, base, name), map[string]any{"got": got, "want": want, "dst": fmt.Sprintf("%x", ba), "src": fmt.Sprintf("%x", bb)})
+						}
+						if !srcDecoded {
+							continue
+						}
+						// Clone of a freshly decoded (still lazy) message
+						if got, w := observe(proto.Clone(src).ProtoReflect()), observe(dyn.Build([]*univ.Slot{b})); got != w {
+							c.Violation(fmt.Sprintf("Clone of a decoded message differs from dynamicpb: %s family=%s case=%s", f.label, base, name), map[string]any{"got": got, "want": w})
+						}
+					}
+				}
+			})
+		})
+		c.DistinctN(int64(len(pairs)))
+		planOut = append(planOut, map[string]any{"family": base, "slot_alphabet": len(alpha), "k": k, "messages": n, "merge_pairs_same_field": len(pairs)})
 	}
 	c.Bounds["plans"] = planOut
 	c.Bounds["api_flavours"] = []string{"open/struct-fields", "hybrid/struct-fields", "hybrid/methods", "opaque/methods", "dynamicpb/protoreflect"}
